@@ -137,8 +137,8 @@ def check_c01(rec, doc, seed_info):
       rec.fail(key, "snapshot == TTML active content", f"ISD.from_model raised {err!r} at t={t} on {docgen.describe(doc, 600)}", desc,
                replayer="replayers.isd:replay", replay_args={"prop": "C01", "gen": seed_info, "t": str(t)})
       continue
-    if flags["ruby_pattern_broken"]:
-      continue        # the statement does not say what a ruby with an inactive part looks like
+    # a ruby with a part that is not presented: the remaining parts are compared like everything else (empty containers, i.e. the
+    # empty stand-ins of the absent parts, are removed from both sides by norm)
     got = {r.get_id(): norm(tree(r)) for r in isd.iter_regions()}
     exp = {k: norm(S.strip(v)) for k, v in want.items()}
     nontrivial = any(v is not None and v[2] for v in exp.values())
@@ -353,12 +353,11 @@ def check_c13(rec, doc, seed_info):
     probs, els = shape_problems(isd, doc)
     # white space and empty-container handling against the oracle
     want, flags = S.snapshot(doc, t)
-    if not flags["ruby_pattern_broken"]:
-      got = {r.get_id(): norm(tree(r)) for r in isd.iter_regions()}
-      exp = {k: norm(S.strip(v)) for k, v in want.items()}
-      if got != exp and classify_diff(got, exp) == "text-content":
-        probs.append(("white-space", "text after white-space handling differs from the xml:space rules: " + str(first_diff(
-          next(got[k] for k in sorted(got) if got[k] != exp.get(k)), next(exp[k] for k in sorted(exp) if got.get(k) != exp[k])))))
+    got = {r.get_id(): norm(tree(r)) for r in isd.iter_regions()}
+    exp = {k: norm(S.strip(v)) for k, v in want.items()}
+    if got != exp and classify_diff(got, exp) == "text-content":
+      probs.append(("white-space", "text after white-space handling differs from the xml:space rules: " + str(first_diff(
+        next(got[k] for k in sorted(got) if got[k] != exp.get(k)), next(exp[k] for k in sorted(exp) if got.get(k) != exp[k])))))
     rec.evaluated("snapshot has the documented shape", hash((seed_info, t)) if els else None, desc if len(els) > 3 else None, bool(els))
     for c in sorted({c for c, _ in probs}):
       rec.fail("shape:" + c, "snapshot has the documented shape", f"t={t}: " + "; ".join(msg for cc, msg in probs if cc == c)[:300] +
